@@ -22,7 +22,7 @@ Plan gen_c10(uint64_t seed, int tier)
   if (r.chance(1, 4))
   {
     // one real file sink, written through stdio (F3)
-    p.cfg["sink" + std::to_string(nsinks - 1) + "_type"] = 1;
+    p.cfg["sink" + std::to_string(nsinks - 1) + "_type"] = Rng(seed ^ 0x1505).chance(1, 3) ? 2 : 1; // (2 = JsonFileSink)
     p.cfg["sink" + std::to_string(nsinks - 1) + "_notifier"] = Rng(seed ^ 0x77).chance(1, 3) ? 1 : 0; // with FileEventNotifier callbacks
     file_sink = true;
   }
@@ -74,6 +74,11 @@ Plan gen_c10(uint64_t seed, int tier)
         else if (kind == 5 && en_fwrite)
         {
           fb = FB_FWRITE_FAIL;
+          if (p.get("sink" + std::to_string(nsinks - 1) + "_type", 0) == 2 && r.chance(1, 2))
+          {
+            // the JSON sink (the last one) rejects this statement in its before_write callback
+            fb = FB_BEFORE_WRITE_THROW | (int64_t{1} << (nsinks - 1));
+          }
         }
         else if (kind == 6 && en_bt)
         {
@@ -168,7 +173,7 @@ Verdict judge_c10(Plan const& p, History const& h, RunInfoLite const& ri)
   rules.allow_backtrace_replay = false;
   rules.expect = [&](Issued const& is, int sink) -> int
   {
-    if (sink_type[static_cast<size_t>(sink)] == 1)
+    if (sink_type[static_cast<size_t>(sink)] != 0)
     {
       return 0; // file sinks are checked through their content below
     }
@@ -219,6 +224,137 @@ Verdict judge_c10(Plan const& p, History const& h, RunInfoLite const& ri)
         return violation("faulty_statement_written_normally", "id " + std::to_string(w.id));
       }
     }
+  }
+  // JSON file sink: every line is exactly one JSON object (a statement whose write failed must leave nothing behind that
+  // is glued to the next one); the statements with named arguments carry their id ("sid"): each at most once, in thread
+  // order, at most one missing per injected fwrite failure
+  for (int s = 0; s < nsinks; ++s)
+  {
+    if (sink_type[static_cast<size_t>(s)] != 2)
+    {
+      continue;
+    }
+    std::string const* content = nullptr;
+    for (auto const& e : h.ev)
+    {
+      if (e.type == EV_FILE_SNAP && e.a == s)
+      {
+        content = &e.s;
+      }
+    }
+    if (!content)
+    {
+      continue;
+    }
+    std::map<int, std::vector<int64_t>> got;
+    std::set<int64_t> seen;
+    size_t pos = 0;
+    uint64_t objects = 0;
+    while (pos < content->size())
+    {
+      size_t nl = content->find('\n', pos);
+      if (nl == std::string::npos)
+      {
+        nl = content->size();
+      }
+      std::string line = content->substr(pos, nl - pos);
+      pos = nl + 1;
+      if (line.empty())
+      {
+        continue;
+      }
+      // one top-level object: string-aware brace scan
+      int depth = 0;
+      bool in_str = false, esc = false, closed = false, bad = line[0] != '{';
+      for (size_t k = 0; k < line.size() && !bad; ++k)
+      {
+        char c = line[k];
+        if (closed)
+        {
+          bad = true; // something follows the end of the object
+          break;
+        }
+        if (in_str)
+        {
+          if (esc)
+          {
+            esc = false;
+          }
+          else if (c == '\\')
+          {
+            esc = true;
+          }
+          else if (c == '"')
+          {
+            in_str = false;
+          }
+        }
+        else if (c == '"')
+        {
+          in_str = true;
+        }
+        else if (c == '{')
+        {
+          ++depth;
+        }
+        else if (c == '}')
+        {
+          --depth;
+          closed = depth == 0;
+        }
+      }
+      if (bad || !closed || in_str)
+      {
+        return violation("json_line_is_not_one_object", "file of sink " + std::to_string(s) + ": '" + line.substr(0, 160) + "'");
+      }
+      ++objects;
+      size_t ps = line.find("\"sid\":\"");
+      if (ps == std::string::npos)
+      {
+        continue;
+      }
+      int64_t id = std::atoll(line.c_str() + ps + 7);
+      auto it = m.issued.find(id);
+      if (it == m.issued.end() || it->second.site != 3)
+      {
+        return violation("garbled_line_in_file", "JSON file of sink " + std::to_string(s) + " names an unknown statement: '" + line.substr(0, 160) + "'");
+      }
+      if (!seen.insert(id).second)
+      {
+        return violation("duplicate_line_in_file", "id " + std::to_string(id) + " (JSON)");
+      }
+      got[it->second.thread].push_back(id);
+    }
+    uint64_t missing = 0;
+    for (int64_t id : m.issue_order)
+    {
+      Issued const& is = m.issued.at(id);
+      if (is.result != 1 || is.kind != 0 || is.site != 3 || is.fault_bits != 0 || !((m.mask_of_logger_at(is.logger, is.invoke_seq) >> s) & 1))
+      {
+        continue;
+      }
+      if (!seen.count(id))
+      {
+        ++missing;
+      }
+    }
+    if (missing > ri.fwrite_faults)
+    {
+      return violation("statements_missing_from_file", std::to_string(missing) + " named-argument statements missing from the JSON file of sink " +
+                                                         std::to_string(s) + " but only " + std::to_string(ri.fwrite_faults) + " fwrite failures were injected");
+    }
+    for (auto const& kv : got)
+    {
+      for (size_t i = 1; i < kv.second.size(); ++i)
+      {
+        if (m.issued.at(kv.second[i]).invoke_seq < m.issued.at(kv.second[i - 1]).invoke_seq)
+        {
+          return violation("file_lines_out_of_thread_order", "sink " + std::to_string(s) + " (JSON)");
+        }
+      }
+    }
+    v.probes["json_file_sinks_checked"]++;
+    v.probes["json_objects_checked"] += objects;
   }
   // file sink: every non-faulty statement present, in thread order, at most one missing per injected fwrite failure
   for (int s = 0; s < nsinks; ++s)
